@@ -86,7 +86,9 @@ def regenerate(ctx):
     if pyexpr2lean is not None:
         try:
             b, c = pyexpr2lean.regenerate_all(SRC, os.path.join(LEAN, "GSV", "Gen"))
-            broken += b
+            # a formula file concerns only the properties whose models are tied to it (setup: report everything)
+            broken += [x for x in b if not re.match(r"C\d\d$", ctx.prop)
+                       or ctx.prop in x.get("props", [ctx.prop])]
             changed += c
         except Exception as e:
             broken.append({"kind": "translator", "file": "pyexpr2lean", "detail": f"pyexpr2lean: {type(e).__name__}: {e}"})
